@@ -197,6 +197,17 @@ def run(ctx):
     done = ctx.process(recs, out, rc, REPLAY, confirm)
     ctx.cov["traces_validated_against_impl"] += done.get("held", 0)
 
+    if not ctx.quick():
+        # the same replay (a part of it) under the race detector: gated interleavings, writer goroutines, harness
+        recs2, out2, rc2 = replay({"variants": {variant: behs[:200]}, "max_sigs": 4}, "replay-race", race=True)
+        sig, rep = race_report(out2)
+        if sig:
+            ctx.report_mismatch(sig, rep, {"test": "race"})
+        elif "DATA RACE" in out2:
+            raise Infra("race detector report outside the package's code (harness?):\n%s" % out2[-5000:])
+        else:
+            ctx.process(recs2, out2, rc2, REPLAY, confirm)
+
     # 4. stress under the race detector
     recs, out, rc = ctx.go_test(PKG, FILES, "^%s$" % STRESS, env={"VERIF_ROUNDS": ctx.pick(60, 400)}, timeout=1500, label="stress", race=True)
     sig, rep = race_report(out)
